@@ -183,6 +183,8 @@ def scenario_markup(draw):
             nm = draw(st.sampled_from([c["pl"], c["df"]]))
             if " " in nm and draw(st.integers(0, 2)) == 0:
                 nm = nm.replace(" ", "")  # the words of a multi-word name run together: a different string, not the name
+            elif draw(st.integers(0, 5)) == 0:
+                nm = nm.lower() if draw(st.booleans()) else nm.upper()  # the same letters in another case: an ordinary word, not the name
             pin = c["page"] + draw(st.integers(0, 50))
             if kind == "mention":
                 wrap = draw(st.sampled_from([("In ", " the"), ("In ", " the"), ("The rule of (", ") was; the"), ("See “", "” where the"), ("in\u00a0", "\u00a0the")]))
